@@ -556,7 +556,8 @@ where
             return Ok(BlockRet::EOF);
         }
         if self.left == 0 {
-            if self.repeat.again() {
+            // With an empty data file there is nothing to repeat.
+            if self.range.1 != 0 && self.repeat.again() {
                 self.file.seek(std::io::SeekFrom::Start(self.range.0))?;
                 self.left = self.range.1;
             } else {
